@@ -165,7 +165,10 @@ def store_oracle(scn, run):
         snap = e["snap"]
         # the client's picture of every pooled task = the pool
         rep = {tuple(v["id"]): v for v in (ds["replica"] or [])}
-        if not ds["publish_pending"]:
+        if ds["publish_pending"]:
+            return (f"tick {e['n']}: the main-loop iteration ended with deltas handed to get_publish_deltas() "
+                    f"but not put on the publish queue (publish_pending is still set)")
+        if True:
             for t in snap["tasks"]:
                 v = rep.get(tuple(t["id"]))
                 if v is None:
@@ -197,6 +200,22 @@ class StoreStream(SchedStream):
         self.cache_key = f"sched-store:{name}:{json.dumps(self.feat, sort_keys=True)}:{p_reload}:{p_window}"
         self.rule += (f"; C25 additions: reload command with probability {p_reload}, graph-window resize with "
                       f"probability {p_window} at a random tick")
+
+    def corpus(self):
+        """Minimal witnesses of the two open findings: a => b (the client gets the edge id twice), and the same
+        with a hold point and a restart (the start-up put publishes the restored workflow state twice)."""
+        base = {"icp": 1, "fcp": 2, "tasks": ["a", "b"],
+                "sections": [{"rec": "P1", "lines": [{"lhs": None, "rhs": "a"}, {"lhs": None, "rhs": "b"},
+                                                     {"lhs": {"task": "a", "off": 0, "out": "succeeded"}, "rhs": "b"}]}],
+                "customs": {}, "opt": [["a", "succeeded", False], ["b", "succeeded", False]], "runahead": 1,
+                "queues": {}, "seed": 1, "fail_rate": 0.0, "custom_rate": 1.0, "disorder": 0.0, "ops": []}
+        if self.feat.get("restart"):
+            c = json.loads(json.dumps(base))
+            c["ops"] = [{"tick": 1, "cmd": "set_hold_point", "args": {"point": "1"}},
+                        {"tick": 2, "cmd": "restart", "mode": "now"},
+                        {"tick": 6, "cmd": "release_hold_point", "args": {}}]
+            return [c]
+        return [base]
 
     def _more(self, s, r):
         s.pop("baseline", None)          # the uninterrupted comparison run belongs to C19
